@@ -7,6 +7,7 @@
 -/
 import Model.Bind
 import Lemmas.Bind
+import Lemmas.BindMore
 
 namespace DI.C09
 
@@ -49,6 +50,27 @@ theorem rename_values_untouched (self : Frame) (toFrom : List (String × String)
     (∀ p ∈ rename self toFrom, ∃ c ∈ self.names, p.2 = colCells 0 c self.nrow) ∧
     ((rename self toFrom).map (·.1)).Nodup :=
   ⟨rename_sources self toFrom, rename_names_nodup self toFrom⟩
+
+/-- update: self's columns that `other` does not replace come first, whole and in order; then
+    other's columns in order, each taken whole or as one row broadcast (nothing else is accepted). -/
+theorem update_untouched_and_fitted (self other : Frame) (out : List OutCol) (h : update self other = some out) :
+    ∃ o, out = (self.names.filter (fun c => !other.names.contains c)).map (fun c => (c, colCells 0 c self.nrow)) ++ o ∧
+      o.length = other.names.length ∧
+      ∀ i (h1 : i < other.names.length) (h2 : i < o.length),
+        (o[i]).1 = other.names[i] ∧ Fitted 1 other.names[i] other.nrow self.nrow (o[i]).2 :=
+  update_spec self other out h
+
+/-- ungrouped modify: every column that is not assigned is in the result, whole; every result column
+    is an untouched own column or one of the assigned names; no name occurs twice. -/
+theorem modify_untouched (self : Frame) (kvs : List (String × Nat)) (out : List OutCol)
+    (h : modify self kvs = some out) :
+    (∀ c ∈ self.names, c ∉ kvs.map (·.1) → (c, colCells 0 c self.nrow) ∈ out) ∧
+    (∀ p ∈ out, (p.1 ∈ self.names ∧ p.2 = colCells 0 p.1 self.nrow) ∨ p.1 ∈ kvs.map (·.1)) ∧
+    (out.map (·.1)).Nodup := modify_spec self kvs out h
+
+/-- a column is fitted to a frame only whole (same length) or by broadcasting a single row. -/
+theorem reconcile_whole_or_broadcast (i : Nat) (c : String) (len nrow : Nat) (e : Bool) (s : List Src)
+    (h : reconcile i c len nrow e = some s) : Fitted i c len nrow s := reconcile_fitted i c len nrow e s h
 
 example : rbind [⟨1, ["a", "b"]⟩, ⟨2, ["c", "a"]⟩] =
     [("a", [Src.cell 0 "a" 0, Src.cell 1 "a" 0, Src.cell 1 "a" 1]),
